@@ -10,7 +10,8 @@ import CpModel.Gen.Fields
     skip_empty=True)` — the scanner of `Text/Scan.lean`; every item is then `NameValuePair.parse_exact_size(item)`.
   * `NameValuePair._parse`: the name is the text before the first `=` (`parse_string_until_separator_or_end`); if
     anything is left, `parse_separator('=')` consumes the whole RUN of `=` (`min_length=1`, no maximum), the value is the
-    rest; a leading `"` is removed and then a trailing one (`quoted`).  Never fails on ASCII text.
+    rest with leading SP/HTAB removed; a leading `"` is removed and then a trailing one (`quoted`); trailing SP/HTAB of the
+    name are removed.  Never fails on ASCII text.
   * the `OrderedDict` built from the pairs: a later duplicate name replaces the value and keeps the first position.
   * `_parse_basic_params`: for every component in attribute order, the FIRST key of the dictionary (in its order) that
     `_check_name` accepts is renamed to the canonical name (`components[canonical] = components.pop(key)`: the pair
@@ -44,11 +45,15 @@ def stripQuotes : Bytes → Bytes
   | 0x22 :: rest => if rest.getLast? = some 0x22 then rest.dropLast else rest
   | v => v
 
-/-- `NameValuePair.parse_exact_size(item)` for an ASCII item -/
+/-- `separator_spaces=' \t'` of `NameValuePairList`; also the characters `NameValuePair` strips around `=` -/
+def fieldWs : Bytes := [0x20, 0x09]
+
+/-- `NameValuePair.parse_exact_size(item)` for an ASCII item: `name.rstrip(' \t')`; the value is what follows the run of
+`=`, `lstrip(' \t')`, then unquoted (RFC 6797 implied *LWS, RFC 7489 `*WSP "=" *WSP`, RFC 6265 §5.2 WSP trimming) -/
 def nameValue (item : Bytes) : Pair :=
   match splitFirstEq item with
-  | none => (item, none)
-  | some (n, v) => (n, some (stripQuotes (v.dropWhile (· = 0x3d))))
+  | none => (trimEnd fieldWs item, none)
+  | some (n, v) => (trimEnd fieldWs n, some (stripQuotes (trimStart fieldWs (v.dropWhile (· = 0x3d)))))
 
 /-! ### the ordered dictionary -/
 
@@ -122,9 +127,6 @@ def parsePairs (T : FieldTable) (ps : List Pair) : Except PErr Assignment :=
   match runComps T.comps (odOfList ps) with
   | .error e => .error e
   | .ok (ss, rest) => .ok ⟨ss, rest⟩
-
-/-- `separator_spaces=' \t'` of `NameValuePairList` -/
-def fieldWs : Bytes := [0x20, 0x09]
 
 /-- `FieldValueMultiple._parse` up to the component value parsers -/
 def parseFields (T : FieldTable) (b : Bytes) : Except PErr Assignment :=
